@@ -189,7 +189,7 @@ def section_copy(run, factory, rendered):
     sec = run.section(
         'copy-subsets',
         'Document.copy(pages).write_pdf for EVERY subset of the pages of documents with <= 6 pages, plus permutations '
-        'and repetitions; and what copy() passes on (pages, metadata, url_fetcher, font_config, no _html); '
+        'and repetitions; and what copy() passes on (pages, metadata, url_fetcher, font_config, _html); '
         'non-trivial = a proper non-empty selection')
     candidates = [item for item in rendered if 2 <= len(item[2]) <= 6]
     candidates.sort(key=lambda item: -len(item[2]))
@@ -232,7 +232,7 @@ def section_copy(run, factory, rendered):
             ['metadata', 1 if copied.metadata is document.metadata else 0],
             ['fetcher', 2 if copied.url_fetcher is document.url_fetcher else 0],
             ['font', 3 if copied.font_config is document.font_config else 0],
-            ['html', hasattr(copied, '_html')]])
+            ['html', getattr(copied, '_html', None) is not None]])
         if copied.fonts != {} or copied is document or (sel != 'all' and copied.pages is document.pages):
             out = 'copy-shares-state'
         sec.add(sx.line('copy', sel, has_html, n), out, meta={'copy': True, 'sel': sel, 'n': n},
@@ -1282,14 +1282,32 @@ def cache_clause(world, resources, options, calls):
 
 # ---------------------------------------------------------------------------------------------- findings
 
-def finding_copy_pdfua():
-    """Document.copy(pages).write_pdf(pdf_variant='pdf/ua-1') raises AttributeError (copy drops `_html`)."""
-    document = docs.render(SINK_HTML + '<p style="break-before:page">cd</p>')
+def finding_pdfua_empty():
+    """document.copy([]).write_pdf(pdf_variant='pdf/ua-1') raises UnboundLocalError (plain PDF: fine)."""
+    document = docs.render(SINK_HTML)
+    document.copy([]).write_pdf()
     try:
-        document.copy(document.pages[:1]).write_pdf(pdf_variant='pdf/ua-1')
-    except AttributeError:
+        document.copy([]).write_pdf(pdf_variant='pdf/ua-1')
+    except UnboundLocalError:
         return True
     return False
+
+
+def finding_stale_link_annotation():
+    """pdf/ua-1 of a copy whose page links to an anchor on an unselected page depends on whether the whole document
+    was written before: add_links leaves the box's `link_annotation` of the earlier PDF in place for the dropped link,
+    and draw / pdfua tag it (a reference into another PDF)."""
+    from harness import c19_history
+    os.environ['SOURCE_DATE_EPOCH'] = c19_history.EPOCH
+    html = ('<style>@page{size:60px 40px;margin:0}body{font-family:weasyprint;font-size:10px;margin:0}</style>'
+            '<title>t</title><p><a href="#b">ab</a></p><p id=b style="break-before:page">cd</p>')
+
+    def subset(document):
+        return document.copy(document.pages[:1]).write_pdf(pdf_variant='pdf/ua-1', pdf_identifier=b'x')
+    alone = subset(docs.render(html))
+    document = docs.render(html)
+    document.write_pdf(pdf_variant='pdf/ua-1', pdf_identifier=b'x')
+    return subset(document) != alone
 
 
 def _image_doc(fmt='JPEG'):
@@ -1430,8 +1448,8 @@ class C19(PropCheck):
         in_domain = zoom > 0 and all(level >= 1 for page in document.pages for level, *_ in page.bookmarks)
         sel, variant = meta.get('sel'), meta.get('variant')
         if sel is not None:
-            if variant == 'pdf/ua-1':
-                return None       # known finding copy-drops-html, replayed separately
+            if variant == 'pdf/ua-1' and sel != 'all' and len(sel) == 0:
+                return None       # known finding pdfua-empty-selection, replayed separately
             what = copy_clause(document, sel, zoom if zoom > 0 else 1)
             if what:
                 return what
@@ -1442,7 +1460,7 @@ class C19(PropCheck):
             try:
                 document.write_pdf(pdf_variant=variant)
             except Exception as exc:  # noqa: BLE001
-                if not hasattr(document, '_html'):
+                if getattr(document, '_html', None) is None:
                     return None   # a hand-made Document has no HTML tree: outside the API contract
                 return f'write_pdf(pdf_variant={variant!r}) raised {type(exc).__name__}: {exc}'
         return zoom_clause(document, zoom)
@@ -1584,7 +1602,9 @@ class C19(PropCheck):
 
     # -- replay -----------------------------------------------------------------------------------------------
     def finding_replays(self):
-        return {'copy-drops-html': finding_copy_pdfua, 'dpi-thumbnail-replaces-source': finding_dpi_rewrite,
+        return {'pdfua-empty-selection': finding_pdfua_empty,
+                'stale-link-annotation': finding_stale_link_annotation,
+                'dpi-thumbnail-replaces-source': finding_dpi_rewrite,
                 'image-cache-ignores-options': finding_cache_options, 'bleedbox-cap-not-zoomed': finding_bleedbox_cap,
                 'font-config-accumulates-font-faces': finding_font_config}
 
@@ -1639,14 +1659,15 @@ MANIFEST = {
                  'real functions; history / process / hash-seed validation harness',
     'text': 'Proved for all inputs on the models: every PDF coordinate except the capped BleedBox offset is zoom x its '
             'value at zoom 1 and the page rectangle does not depend on zoom; copy(pages) writes exactly the selected '
-            'pages with no dangling internal link and the first-occurrence destinations; the three write_pdf targets '
+            'pages (every variant) with no dangling internal link and the first-occurrence destinations; the three write_pdf targets '
             'get one pdf.write with identical arguments; a cache shared by any call history with a deterministic '
             'fetcher and fixed options returns the cold value (keys are injective in (url, orientation)); successive '
             'renders share no object that the caller did not pass. The models are tied to /repo by exact '
             'correspondence on generated documents, synthetic pages, call histories and recorded constructor traces.',
     'note': 'Partial by nature: determinism across processes / PYTHONHASHSEED, byte identity and non-mutation of caller '
             'objects are runtime behaviour; they are exercised by the history harness (validation), not proved. Known '
-            'findings: BleedBox 10pt cap is not scaled by zoom; Document.copy drops _html (pdf/ua-1 fails); dpi: the '
+            'findings: BleedBox 10pt cap is not scaled by zoom; pdf/ua-1 of an empty selection fails; pdf/ua-1 of a '
+            'copy depends on an earlier write (stale link_annotation); dpi: the '
             'first write replaces the image source by its thumbnail; the image cache ignores the image options; a '
             'document\'s @font-face stays registered in the caller\'s FontConfiguration.',
 }
